@@ -199,7 +199,7 @@ fn build_attrs(k: &AttrK) -> Vec<Attribute> {
         _ => v.push(local_pref(200)),
     }
     if k.comm {
-        v.push(communities(&[0xffff_0001 - 0xffff_0001 + 65000 * 65536 + 1, LLGR_STALE]));
+        v.push(communities(&[(65000u32 << 16) | 1, LLGR_STALE]));
     }
     if let Some(o) = k.orig {
         v.push(originator(o));
@@ -281,6 +281,7 @@ fn the_net(evpn: bool) -> (Family, Nlri) {
 // ---------------------------------------------------------------------------
 
 /// One path of the current set, as the harness knows it.
+#[derive(Clone)]
 struct PInfo {
     label: String,
     r: RefPath,
@@ -742,24 +743,9 @@ fn run_set(tag: &str, evpn: bool, kinds: &[Kind], perms: &[Vec<usize>], verbose:
                     0,
                 );
                 present.push(slot);
-                // the oracle sees only the paths inserted so far
-                let cur: Vec<PInfo> = infos
-                    .iter()
-                    .enumerate()
-                    .map(|(i, p)| PInfo {
-                        label: p.label.clone(),
-                        r: p.r.clone(),
-                        filtered: p.filtered,
-                        nh_invalid: p.nh_invalid,
-                        rs_client: p.rs_client,
-                        addr: p.addr,
-                        // paths not yet inserted are unknown to the table
-                        src_ptr: if present.contains(&i) { p.src_ptr } else { 0 },
-                        attr_ptr: if present.contains(&i) { p.attr_ptr } else { 0 },
-                    })
-                    .filter(|p| p.src_ptr != 0)
-                    .collect();
-                // `cur` is indexed by position among present slots in slot order: map back for labels only
+                // the oracle sees only the paths inserted so far (indexed among present slots, slot order)
+                let slots_present: Vec<usize> = (0..infos.len()).filter(|i| present.contains(i)).collect();
+                let cur: Vec<PInfo> = slots_present.iter().map(|&i| infos[i].clone()).collect();
                 let obs = observe_table(&t, fam, &net, &cur, &viewers);
                 let (mut v, reading) = judge_any(&cur, &obs, evpn);
                 if let InsertResult::Changed(c) = &res {
@@ -783,7 +769,6 @@ fn run_set(tag: &str, evpn: bool, kinds: &[Kind], perms: &[Vec<usize>], verbose:
                 out.extend(v);
                 if step + 1 == order.len() {
                     // final ranking expressed in slot numbers
-                    let slots_present: Vec<usize> = (0..infos.len()).filter(|i| present.contains(i)).collect();
                     let to_slot = |v: &Vec<usize>| v.iter().map(|&i| if i == UNKNOWN { UNKNOWN } else { slots_present[i] }).collect::<Vec<usize>>();
                     last = Some(Ranking { ranked: to_slot(&obs.rk.ranked), ecmp: to_slot(&obs.rk.ecmp), best: obs.rk.best.map(|b| if b == UNKNOWN { UNKNOWN } else { slots_present[b] }) });
                 }
@@ -887,10 +872,8 @@ fn account(local: &mut Report, tag: &str, o: SetOutcome, sample: impl FnOnce() -
         local.add(&format!("a.{tag}.sets-with-violation"), 1);
     }
     local.violations_from(o.viols);
-    if idx % 200_003 == 17 {
-        if local.samples.len() < 2 {
-            local.samples.push(sample());
-        }
+    if idx % 50_021 == 17 && local.samples.is_empty() {
+        local.samples.push(sample());
     }
 }
 
@@ -985,6 +968,9 @@ fn cover(evpn: bool, doubles: bool) -> Vec<Kind> {
             for j in i + 1..9 {
                 if let (Some(&w), Some(&b)) = (worse[i].first(), better[j].first()) {
                     out.push(set(&set(&base, i, w), j, b));
+                }
+                if let (Some(&b), Some(&w)) = (better[i].first(), worse[j].first()) {
+                    out.push(set(&set(&base, i, b), j, w));
                 }
             }
         }
